@@ -24,21 +24,44 @@ const shardCount = 2
 // upstream names per shard (found by the real sharding function). Upstream names are DNS subdomains; the pool prefers the
 // boundary ones: one name that is a dotted prefix of another ("a.b" / "a.b.c": the condition "a.b.c.state" starts with
 // "a.b."), an IP-like name, a punycode name, a 63-character label, a 253-character name; plain names fill up.
-var upstreamsOf = func() [shardCount][]string {
+var upstreamsOf = upstreamPool(shardCount, 3)
+
+var (
+	poolMu sync.Mutex
+	pools  = map[string][][]string{}
+)
+
+// upstreamPool: per upstreams names for every shard of an n-shard limiter (memoised).
+func upstreamPool(n, per int) [][]string {
+	poolMu.Lock()
+	defer poolMu.Unlock()
+	key := fmt.Sprintf("%d/%d", n, per)
+	if p, ok := pools[key]; ok {
+		return p
+	}
+	p := buildPool(n, per)
+	pools[key] = p
+	return p
+}
+
+func buildPool(shards, per int) [][]string {
 	l63 := strings.Repeat("u", 63)
 	cands := []string{"a.b", "a.b.c", "1.2.3.4", "xn--bcher-kva.example", l63, l63 + "." + l63 + "." + l63 + "." + strings.Repeat("v", 61)}
 	for i := 0; i < 40; i++ {
 		cands = append(cands, fmt.Sprintf("up-%d", i))
 	}
-	var out [shardCount][]string
+	for i := 40; i < 40+200*shards; i++ {
+		cands = append(cands, fmt.Sprintf("up-%d", i))
+	}
+	out := make([][]string, shards)
 	for _, n := range cands {
-		s := util.GetShardID(n, shardCount)
-		if len(out[s]) < 3 {
+		s := util.GetShardID(n, shards)
+		if len(out[s]) < per {
 			out[s] = append(out[s], n)
 		}
 	}
 	return out
-}()
+}
 
 type op struct {
 	Kind     string `json:"op"` // load | save | delete | delete-upstream | flush | tick | stop | other-shard-store-save
@@ -92,7 +115,20 @@ type sequence struct {
 	// Takeover: what the NEXT holder of the shard does after it loaded (no faults): its operations work on what Load put
 	// into its cache; then it stops and a third holder loads.
 	Takeover []op `json:"next_holder_ops,omitempty"`
+	// Shards: number of shards of the limiter (0 = 2). Bulk: many conditions per shard, few operations.
+	Shards int  `json:"shards,omitempty"`
+	Bulk   bool `json:"bulk,omitempty"`
 }
+
+func (s sequence) shards() int {
+	if s.Shards == 0 {
+		return shardCount
+	}
+	return s.Shards
+}
+
+// otherShard: the shard whose store plays "the other shard" in a sequence.
+func (s sequence) otherShard() int { return (s.Shard + 1) % s.shards() }
 
 func (s sequence) String() string {
 	var ss []string
@@ -110,6 +146,51 @@ func (s sequence) String() string {
 		}
 	}
 	return fmt.Sprintf("%s shard=%d %s", s.Mode, s.Shard, strings.Join(ss, " "))
+}
+
+// genBulk: 20..60 conditions of the own shard already persisted (7..20 upstreams with 3 conditions each), a few of other
+// shards, and only a few operations: every flush / stop / delete-upstream then makes dozens of API calls, and every one of
+// them is a fault position.
+func genBulk(g *vkit.Rand, s sequence) sequence {
+	nUp := g.Range(7, 20)
+	pool := upstreamPool(s.shards(), 20)
+	own := pool[s.Shard][:nUp]
+	ver := int32(0)
+	next := func() int32 { ver++; return ver }
+	for _, u := range own {
+		for _, n := range condNames(u) {
+			s.Seeds = append(s.Seeds, op{Kind: "seed", Upstream: u, Name: n, Ver: next()})
+		}
+	}
+	for sh := 0; sh < s.shards(); sh++ {
+		if sh != s.Shard {
+			u := pool[sh][0]
+			s.Seeds = append(s.Seeds, op{Kind: "seed", Upstream: u, Name: u + ".state", Ver: next()})
+		}
+	}
+	pickName := func(us []string) (string, string) {
+		u := us[g.Intn(len(us))]
+		return u, condNames(u)[g.Intn(3)]
+	}
+	s.Ops = append(s.Ops, op{Kind: "load"})
+	for i, n := 0, g.Range(2, 4); i < n; i++ {
+		switch x := g.Intn(10); {
+		case x < 5:
+			s.Ops = append(s.Ops, genSave(g, own, pickName, next))
+		case x < 7:
+			u, name := pickName(own)
+			s.Ops = append(s.Ops, op{Kind: "delete", Upstream: u, Name: name})
+		case x < 9:
+			s.Ops = append(s.Ops, op{Kind: "delete-upstream", Upstream: own[g.Intn(len(own))]})
+		default:
+			s.Ops = append(s.Ops, op{Kind: "flush"})
+		}
+	}
+	s.Ops = append(s.Ops, op{Kind: "stop"})
+	if g.Bool() {
+		s.Takeover = []op{genSave(g, own, pickName, next), {Kind: "delete-upstream", Upstream: own[g.Intn(len(own))]}, {Kind: "stop"}}
+	}
+	return s
 }
 
 // genSave: a save of a fresh object (what a direct user of the store does), or one of the two aliasing shapes the limiter
@@ -147,10 +228,18 @@ func isCondOf(name, upstream string) bool {
 
 // genSequence: save / delete / delete-upstream / flush / tick / stop over 1..3 upstreams of the own shard and 1..2 of the
 // other shard, 3..12 operations after the initial Load, on top of 0..4 conditions that already exist in the API.
-func genSequence(g *vkit.Rand, mode string) sequence {
-	s := sequence{Mode: mode, Shard: g.Intn(shardCount)}
-	own := upstreamsOf[s.Shard][:g.Range(1, 3)]
-	other := upstreamsOf[1-s.Shard][:g.Range(1, 2)]
+func genSequence(g *vkit.Rand, mode string, bulk bool) sequence {
+	s := sequence{Mode: mode, Bulk: bulk}
+	if bulk || g.Chance(0.25) {
+		s.Shards = g.Range(3, 8) // a quarter of the sequences (and the bulk ones): 3..8 shards
+	}
+	s.Shard = g.Intn(s.shards())
+	pool := upstreamPool(s.shards(), 3)
+	own := pool[s.Shard][:g.Range(1, 3)]
+	other := pool[s.otherShard()][:g.Range(1, 2)]
+	if bulk {
+		return genBulk(g, s)
+	}
 	ver := int32(0)
 	next := func() int32 { ver++; return ver }
 	pickName := func(us []string) (string, string) {
@@ -280,8 +369,9 @@ func (s valset) String() string {
 }
 
 type model struct {
-	mode  string
-	shard int
+	mode   string
+	shard  int
+	shards int
 	// allowed[name]: the API states the statement permits at this point.
 	//  acknowledged save (write-through) / acknowledged flush or stop (periodic) / acknowledged delete: exactly that state;
 	//  an unacknowledged attempt (error, crash, panic) may or may not have taken effect: its state is added;
@@ -304,7 +394,7 @@ type model struct {
 }
 
 func newModel(seq sequence, snap map[string]stored) *model {
-	m := &model{mode: seq.Mode, shard: seq.Shard, allowed: map[string]valset{}, local: map[string]valset{}, known: map[string]bool{}, pend: map[string]val{}, upstreamOf: map[string]string{}, deletedAck: map[string]bool{}, lastSave: map[string]string{}}
+	m := &model{mode: seq.Mode, shard: seq.Shard, shards: seq.shards(), allowed: map[string]valset{}, local: map[string]valset{}, known: map[string]bool{}, pend: map[string]val{}, upstreamOf: map[string]string{}, deletedAck: map[string]bool{}, lastSave: map[string]string{}}
 	for n, st := range snap {
 		m.allowed[n] = valset{st.Val: true}
 		m.upstreamOf[n] = st.Upstream
@@ -347,7 +437,7 @@ func (m *model) thirdParty(name string, now val) { m.allowed[name] = valset{now:
 
 func (m *model) afterLoad(snap map[string]stored) {
 	for n, st := range snap {
-		if util.GetShardID(st.Upstream, shardCount) == m.shard {
+		if util.GetShardID(st.Upstream, m.shards) == m.shard {
 			m.local[n] = valset{st.Val: true}
 			m.known[n] = true
 			m.pend[n] = st.Val
@@ -554,9 +644,10 @@ func execute(seq sequence, faults []fault, emulateNilDeref bool) runResult {
 	if seq.Mode == "periodic" {
 		period = time.Hour
 	}
-	store, tick := k8s.VerifNewK8sCacheStore(cs, period, seq.Shard, shardCount)
+	nShards := seq.shards()
+	store, tick := k8s.VerifNewK8sCacheStore(cs, period, seq.Shard, nShards)
 	csOther, _ := newClient(a)
-	otherStore, _ := k8s.VerifNewK8sCacheStore(csOther, 0, 1-seq.Shard, shardCount)
+	otherStore, _ := k8s.VerifNewK8sCacheStore(csOther, 0, seq.otherShard(), nShards)
 
 	var res runResult
 	cur := ""
@@ -626,7 +717,7 @@ func execute(seq sequence, faults []fault, emulateNilDeref bool) runResult {
 	// checkLoad: a new store for shard sh over client loads; it must hold exactly what the API holds for that shard now.
 	var newServer *gatewayfake.Clientset
 	checkLoad := func(client *gatewayfake.Clientset, sh int, who string, snap map[string]stored) (_interface.LimitStore, func()) {
-		ns, nsTick := k8s.VerifNewK8sCacheStore(client, period, sh, shardCount)
+		ns, nsTick := k8s.VerifNewK8sCacheStore(client, period, sh, nShards)
 		out, err, pi := callOp(ns.Load)
 		if out != acked {
 			add("load-fails", fmt.Sprintf("%s: Load() without any fault: %v %v", who, err, pi))
@@ -638,8 +729,8 @@ func execute(seq sequence, faults []fault, emulateNilDeref bool) runResult {
 			got[c.name] = c.v
 			st, inAPI := snap[c.name]
 			switch {
-			case util.GetShardID(c.upstream, shardCount) != sh:
-				add("load-foreign-shard", fmt.Sprintf("%s (shard %d) loaded %s of upstream %s (shard %d)", who, sh, c.name, c.upstream, util.GetShardID(c.upstream, shardCount)))
+			case util.GetShardID(c.upstream, nShards) != sh:
+				add("load-foreign-shard", fmt.Sprintf("%s (shard %d) loaded %s of upstream %s (shard %d)", who, sh, c.name, c.upstream, util.GetShardID(c.upstream, nShards)))
 			case !inAPI:
 				add("load-not-persisted", fmt.Sprintf("%s loaded %s=%s which the API does not hold", who, c.name, c.v))
 			case st.Val != c.v:
@@ -648,7 +739,7 @@ func execute(seq sequence, faults []fault, emulateNilDeref bool) runResult {
 		}
 		for n, st := range snap {
 			cur = n
-			if util.GetShardID(st.Upstream, shardCount) == sh {
+			if util.GetShardID(st.Upstream, nShards) == sh {
 				if _, ok := got[n]; !ok {
 					add("load-misses-persisted", fmt.Sprintf("%s did not load %s=%s which the API holds for its shard", who, n, st.Val))
 				}
@@ -815,7 +906,7 @@ func execute(seq sequence, faults []fault, emulateNilDeref bool) runResult {
 				newServer, _ = newClient(a)
 				res.NewServerFirst = true
 				n0 := len(res.Findings)
-				checkLoad(newServer, 1-seq.Shard, "the next server (gaining the other shard while this store is still running)", a.snapshot())
+				checkLoad(newServer, seq.otherShard(), "the next server (gaining the other shard while this store is still running)", a.snapshot())
 				res.Log = append(res.Log, fmt.Sprintf("%s -> %d finding(s)", o.Kind, len(res.Findings)-n0))
 				continue
 			}
@@ -918,7 +1009,7 @@ func execute(seq sequence, faults []fault, emulateNilDeref bool) runResult {
 	var nextStore _interface.LimitStore
 	var nextTick func()
 	var nextClient *gatewayfake.Clientset
-	for sh := 0; sh < shardCount; sh++ {
+	for sh := 0; sh < nShards; sh++ {
 		who := "new holder of the same shard"
 		if sh != seq.Shard {
 			who = "holder of the other shard"
@@ -943,7 +1034,7 @@ func execute(seq sequence, faults []fault, emulateNilDeref bool) runResult {
 		store, tick = nextStore, nextTick
 		inj = &injector{api: a} // (no faults in this phase; the interleaving hooks of the first phase are not used)
 		_ = nextClient
-		m = newModel(sequence{Mode: seq.Mode, Shard: seq.Shard, Ops: seq.Takeover}, snap)
+		m = newModel(sequence{Mode: seq.Mode, Shard: seq.Shard, Shards: seq.Shards, Ops: seq.Takeover}, snap)
 		m.afterLoad(snap)
 		for k := range reportedAtAck {
 			delete(reportedAtAck, k)
